@@ -42,6 +42,7 @@ type ftPlan struct {
 	O      sOpts
 	Stream bool
 	Puts   []string
+	Many   int // blockstore only: the first Many blocks are written by one PutMany call
 }
 
 // failingStream: plain io.Writer with the same fault hook.
